@@ -291,8 +291,8 @@ static void run_history(
     for (auto& step : hist) {
         auto sets = make_set(step.first);
         bool ok = publish_and_check<P>(sets, step.second, earlier);
-        if (!ok && step.second >= 100000)
-            cand("hash search failed with the default budget for " + step.first);
+        // a reported hash_search_error is a legitimate outcome, also with the
+        // default budget (e.g. several hundred unstructured 64-bit ids)
         prev_failed = !ok;
         for (auto& c : sets)
             for (auto id : c)
